@@ -579,5 +579,130 @@ theorem rollback_sim {c : Ctx} {g1 : Store} {bh : BlkId} {txs : List TxId}
   show mergeBalances sa.bals _ = mergeBalances ga.bals _
   rw [hb]
   exact congrArg _ hP.balance
+-- ------------------------------------------------------------------ disconnectBlock
+
+/-- the simulation for the tip block, with the whole invariant as conclusion -/
+theorem disconnectBlock_rbInv {c : Ctx} {g' : Store} {h : Nat} {bh : BlkId} {txs : List TxId}
+    (hSub : Sub addrs g s) (hh : g.syncedTo = h) (h0 : h ≠ 0)
+    (hrec : AMap.get g.blocks h = some (bh, txs)) (hN : NewEq ⟨h, bh⟩ g s)
+    (hdeb : ∀ id i d cr, AMap.get g.debits ⟨id, ⟨h, bh⟩, i⟩ = some d → AMap.get g.credits d.2 = some cr →
+      addrs.contains cr.sh = false)
+    (hg : disconnectBlock c g h = .ok g') :
+    ∃ s', disconnectBlock c s h = .ok s' ∧ RbInv addrs ⟨h, bh⟩ g s g' s' := by
+  unfold disconnectBlock at hg ⊢
+  rw [if_neg h0] at hg ⊢
+  rw [hSub.syncedTo]
+  have hlt : ¬ h > g.syncedTo := by rw [hh]; exact Nat.lt_irrefl h
+  rw [if_neg hlt] at hg ⊢
+  obtain ⟨g1, h1, h2⟩ := M_bind_ok hg
+  cases h2
+  obtain ⟨s1, hs1, hI⟩ := rollback_sim (bm := ⟨h, bh⟩) (c := c) hdeb hSub hN hh hrec rfl h1
+  rw [hs1]
+  refine ⟨_, rfl, ?_⟩
+  refine ⟨hI.unspent, hI.game, hI.balance, ?_, ?_, ?_, hI.adr, hI.cred, hI.debS, hI.deb, hI.debO, hI.txS, hI.tx,
+    hI.blk⟩
+  · show (resetSyncedTo s1 (h - 1)).sync = (resetSyncedTo g1 (h - 1)).sync
+    unfold resetSyncedTo
+    dsimp only
+    rw [hI.sync, hI.syncedTo]
+  · show (resetSyncedTo s1 (h - 1)).syncedTo = (resetSyncedTo g1 (h - 1)).syncedTo
+    unfold resetSyncedTo
+    dsimp only
+    rw [hI.syncedTo]
+  · show List.map _ s1.status = List.map _ g1.status
+    rw [hI.status]
+
+/-- ROLLBACK SIMULATION: disconnecting the tip block `⟨h, bh⟩` (the one with a block record) succeeds on the real
+    store whenever it does on the ghost, and the result is again "ghost minus the same records" -/
+theorem disconnectBlock_sim {addrs : List Addr} {c : Ctx} {g s g' : Store} {h : Nat} {bh : BlkId} {txs : List TxId}
+    (hSub : Sub addrs g s) (hng : KeysNodup g.credits) (hns : KeysNodup s.credits)
+    (hh : g.syncedTo = h) (h0 : h ≠ 0)
+    (hrec : AMap.get g.blocks h = some (bh, txs)) (hN : NewEq ⟨h, bh⟩ g s)
+    (hdeb : ∀ id i d cr, AMap.get g.debits ⟨id, ⟨h, bh⟩, i⟩ = some d → AMap.get g.credits d.2 = some cr →
+      addrs.contains cr.sh = false)
+    (hg : disconnectBlock c g h = .ok g') :
+    ∃ s', disconnectBlock c s h = .ok s' ∧ Sub addrs g' s' ∧ KeysNodup s'.credits ∧ KeysNodup g'.credits ∧
+      NewEq ⟨h, bh⟩ g' s' ∧ AMap.get s'.blocks h = AMap.get g'.blocks h ∧
+      (∀ k, k.2 ≠ ⟨h, bh⟩ → AMap.get s'.txrecs k = AMap.get s.txrecs k) ∧
+      (∀ h', h' ≠ h → AMap.get s'.blocks h' = AMap.get s.blocks h') ∧
+      (∀ k, k.blk ≠ ⟨h, bh⟩ → AMap.get s'.debits k = AMap.get s.debits k) ∧
+      (∀ k, k.2 ≠ ⟨h, bh⟩ → AMap.get g'.txrecs k = AMap.get g.txrecs k) ∧
+      (∀ h', h' ≠ h → AMap.get g'.blocks h' = AMap.get g.blocks h') ∧
+      (∀ k, k.blk ≠ ⟨h, bh⟩ → AMap.get g'.debits k = AMap.get g.debits k) ∧
+      (∀ k, k.blk ≠ ⟨h, bh⟩ → AMap.get s'.credits k = AMap.get s.credits k ∨
+        (∃ c0, AMap.get s.credits k = some c0 ∧ AMap.get g.credits k = some c0 ∧ addrs.contains c0.sh = false ∧
+          AMap.get s'.credits k = AMap.get g'.credits k)) ∧
+      (∀ k cr, k.blk ≠ ⟨h, bh⟩ → AMap.get g.credits k = some cr → addrs.contains cr.sh = true →
+        AMap.get g'.credits k = some cr) ∧
+      (∀ k cr, AMap.get g'.credits k = some cr → addrs.contains cr.sh = true → AMap.get g.credits k = some cr) := by
+  obtain ⟨s', hs, hI⟩ := disconnectBlock_rbInv hSub hh h0 hrec hN hdeb hg
+  refine ⟨s', hs,
+    ⟨hI.unspent, hI.game, hI.balance, hI.sync, hI.syncedTo, hI.status, hI.cred.sub, hI.debS, hI.txS, hI.adr⟩,
+    cn_disconnectBlock hns hs, cn_disconnectBlock hng hg,
+    ⟨fun id => hI.tx.new (id, _) rfl, hI.blk.new _ rfl, fun id i => hI.cred.new ⟨id, _, i⟩ rfl,
+      fun id i => hI.deb.new ⟨id, _, i⟩ rfl⟩, hI.blk.new _ rfl,
+    hI.tx.frame, hI.blk.frame, hI.deb.frame, hI.tx.gframe, hI.blk.gframe, hI.deb.gframe, ?_, ?_, ?_⟩
+  · intro k hk
+    rcases hI.cred.old k hk with ⟨_, e⟩ | ⟨c0, _, a1, a2, a3, a4, _, _⟩
+    · exact Or.inl e
+    · exact Or.inr ⟨c0, a1, a2, a3, a4⟩
+  · intro k cr hb hk hsh
+    rcases hI.cred.old k hb with ⟨e, _⟩ | ⟨c0, _, _, a2, a3, _, _, _⟩
+    · rw [e]; exact hk
+    · rw [hk] at a2; cases a2; rw [hsh] at a3; cases a3
+  · intro k cr hk hsh
+    by_cases hb : k.blk = ⟨h, bh⟩
+    · exact hI.cred.newc k cr hb hk hsh
+    · rcases hI.cred.old k hb with ⟨e, _⟩ | ⟨c0, c1, _, _, a3, _, a5, a6⟩
+      · rw [← e]; exact hk
+      · rw [hk] at a5; cases a5; rw [a6, a3] at hsh; cases hsh
+
+/-- the tip has no block record: Rollback finds nothing to undo, only the balances are rewritten (with the same
+    values) and the sync table / status map move — identically on both stores; every other mined bucket stays -/
+theorem disconnectBlock_sim_none {addrs : List Addr} {c : Ctx} {g s g' : Store} {h : Nat}
+    (hSub : Sub addrs g s) (hh : g.syncedTo = h) (h0 : h ≠ 0)
+    (hrec : AMap.get g.blocks h = none) (hblk : AMap.get s.blocks h = AMap.get g.blocks h)
+    (hg : disconnectBlock c g h = .ok g') :
+    ∃ s', disconnectBlock c s h = .ok s' ∧ Sub addrs g' s' ∧
+      s'.credits = s.credits ∧ s'.debits = s.debits ∧ s'.txrecs = s.txrecs ∧ s'.blocks = s.blocks ∧
+      g'.credits = g.credits ∧ g'.debits = g.debits ∧ g'.txrecs = g.txrecs ∧ g'.blocks = g.blocks := by
+  have hrs : AMap.get s.blocks h = none := by rw [hblk, hrec]
+  have key : ∀ st : Store, st.syncedTo = h → AMap.get st.blocks h = none →
+      rollback c st h = .ok { st with balance := mergeBalances st.balance st.balance } := by
+    intro st e1 e2
+    have e : rollbackBlockAt c { s := st, bals := st.balance } h = .ok { s := st, bals := st.balance } := by
+      unfold rollbackBlockAt
+      dsimp only
+      rw [e2]
+      rfl
+    unfold rollback
+    rw [e1, tip_heights]
+    dsimp only
+    rw [List.foldlM_cons, e]
+    simp only [M_ok_bind, List.foldlM_nil, M_pure_eq, List.foldl_nil]
+    rw [e1]
+  unfold disconnectBlock at hg ⊢
+  rw [if_neg h0] at hg ⊢
+  rw [hSub.syncedTo]
+  have hlt : ¬ h > g.syncedTo := by rw [hh]; exact Nat.lt_irrefl h
+  rw [if_neg hlt] at hg ⊢
+  rw [key g hh hrec] at hg
+  rw [key s (hSub.syncedTo.trans hh) hrs]
+  cases hg
+  refine ⟨_, rfl, ?_, rfl, rfl, rfl, rfl, rfl, rfl, rfl, rfl⟩
+  refine ⟨hSub.unspent, hSub.game, ?_, ?_, ?_, ?_, hSub.credits, hSub.debits, hSub.txrecs, hSub.addrs⟩
+  · show mergeBalances s.balance s.balance = mergeBalances g.balance g.balance
+    rw [hSub.balance]
+  · show (resetSyncedTo { s with balance := _ } (h - 1)).sync = (resetSyncedTo { g with balance := _ } (h - 1)).sync
+    unfold resetSyncedTo
+    dsimp only
+    rw [hSub.sync, hSub.syncedTo]
+  · show (resetSyncedTo { s with balance := _ } (h - 1)).syncedTo =
+      (resetSyncedTo { g with balance := _ } (h - 1)).syncedTo
+    unfold resetSyncedTo
+    dsimp only
+    rw [hSub.syncedTo]
+  · show List.map _ s.status = List.map _ g.status
+    rw [hSub.status]
 
 end MW.Lemmas.RemoveSim
